@@ -27,7 +27,7 @@ def random_presentation(spec, g, allow_rename=True, allow_domperm=True, via=('ap
         g.shuffle(o)
     for o in p['edge_order']:
         g.shuffle(o)
-    p['ids'] = g.choice(['spec', 'implicit', 'explicit', 'explicit2'])
+    p['ids'] = g.choice(['spec', 'implicit', 'explicit', 'explicit2', 'explicit3'])
     g.shuffle(p['domain_order'])
     g.shuffle(p['factor_order'])
     p['ext_first'] = g.random() < 0.5
@@ -103,6 +103,8 @@ def build(spec, pres=None, interp=True, weights_transform=None, dtype=None, requ
                 nid = 'N%d_%d' % (ri, i)
             elif pres['ids'] == 'explicit2':
                 nid = 'm%s' % ('abcdefgh'[(7 - i) % 8]) + str(ri)
+            elif pres['ids'] == 'explicit3':
+                nid = 'x' if i == 0 else 'x_%d' % i      # ids that are prefixes/suffix-variants of each other
             nodes[i] = F.Node(nls[v['label']], id=nid)
             B.nodes[(ri, i)] = nodes[i]
             return nodes[i]
@@ -121,7 +123,7 @@ def build(spec, pres=None, interp=True, weights_transform=None, dtype=None, requ
             eid = e.get('id')
             if pres['ids'] == 'implicit':
                 eid = None
-            elif pres['ids'] in ('explicit', 'explicit2'):
+            elif pres['ids'] in ('explicit', 'explicit2', 'explicit3'):
                 eid = 'E%d_%d' % (ri, (j * 5 + 3) % 11) + '.' + str(j)
             ed = F.Edge(labels[e['label']], [nodes[k] for k in e['att']], id=eid)
             B.edges[(ri, j)] = ed
